@@ -577,12 +577,31 @@ def build_pool(cs, ctx):
                    dtype=np.float64, nodata=0)
     gcoarse.data[...] = rs.uniform(0, 1, gcoarse.data.shape)
     pool.add("coarse", gcoarse, None, "coarse grid")
+    # ... and a coarse grid of integer classes (a narrower type than the
+    # fields it is combined with)
+    gclass = Grid("classes", max(2, nc // 2 + 1), max(2, nr // 2 + 1),
+                  cellsize=1.5, xllcorner=9.5, yllcorner=-5.5,
+                  dtype=np.int32, nodata=-1)
+    gclass.data[...] = rs.randint(0, 6, gclass.data.shape)
+    pool.add("coarse", gclass, None, "coarse grid of classes[i4]")
     # catchments delineated once at pool creation, never re-delineated
     sinks = [int(i) for i in np.where(fd.reshape(-1) == 0)[0]]
     for j in range(2):
         cat = Catchment(f"cat{j}", gflow)
         outlet = sinks[cs.draw(f"cat{j}.outlet", len(sinks))]
         cat.delineate_area(outlet, nval=nr * nc + 5)
+        pool.add("catch", cat, None, f"catchment[outlet {outlet}, "
+                 f"{len(cat.idxcells_area)} cells]")
+    # ... and small ones (a few cells, in the order the delineation found them)
+    for j in range(2, 5):
+        cat = Catchment(f"cat{j}", gflow)
+        outlet = cs.draw(f"cat{j}.cell", nr * nc)
+        try:
+            cat.delineate_area(outlet, nval=nr * nc + 5)
+        except Exception:
+            continue
+        if len(cat.idxcells_area) == 0:
+            continue
         pool.add("catch", cat, None, f"catchment[outlet {outlet}, "
                  f"{len(cat.idxcells_area)} cells]")
     pool.ncells = nr * nc
@@ -999,6 +1018,34 @@ def catalogue():
         lambda a, o: {k: (v if k != "flowdir" else None)
                       for k, v in a.c.to_dict().items()}, weight=1,
         owned=False)
+    def around_boundary(a, o):
+        """The same read-only call before and after delineate_boundary (which
+        only adds the boundary to the catchment) must agree."""
+        def read():
+            if o["what"] == "flowpaths":
+                a.c.compute_flowpathlengths()
+                return rdigest(a.c.flowpathlengths)
+            if o["what"] == "intersect":
+                return rdigest(a.c.intersect(a.g))
+            return rdigest([a.c.idxcells_area, a.c.to_dict()["idxcells_area"]])
+        r1 = read()
+        try:
+            a.c.delineate_boundary()
+        except Exception:
+            return r1
+        r2 = read()
+        if r1 != r2:
+            raise Violation("consecutive_calls_differ",
+                            f"{o['what']} on a catchment of "
+                            f"{len(a.c.idxcells_area)} cells gives another "
+                            "result after delineate_boundary()",
+                            "Catchment read around delineate_boundary")
+        return r1
+    add("Catchment read around delineate_boundary",
+        [CA, ("g", "coarse", None)], around_boundary,
+        lambda cs: {"what": cs.choice("what", ["flowpaths", "intersect",
+                                               "cells"])},
+        owned=False, weight=3)
     # fresh catchment per call: delineation as a pure function of its args
     FD = ("fd", "flowdir", None)
 
